@@ -56,6 +56,11 @@ CHECKS = {
         technique="same TLA+ model with resume on and a Crash action at every state (cut inside/outside MULTI, restart from the newest checkpoint) model-checked by TLC; simulated behaviours with cuts replayed lock-step: the real LoadCheckpoint reads what the real sender stored and a new parser/sender resumes; every per-step snapshot (= every cut point reached) validated by TLC against CkptAtomic and the resume contract",
         text="TLC proves that in every reachable state the dataset equals the source history up to the newest stored offset, that a run id is stored with every offset and that restart + completion loses and repeats nothing, for every cut position (1-2 cuts); replayed behaviours exercise the same cuts on the real code (target connections killed at a command boundary while commands wait in the target's gate), with the real loader and a real restart, and TLC judges the real target state after every step.",
         note="Static offset base (the live acknowledgement path is C08); cuts are at command boundaries of the target's input; mredis stands in for the target."),
+    "C07": dict(
+        level="model_checking", design="DESIGN.md 4/C07",
+        technique="TLA+ model of the worker pool (FullSync.tla) model-checked by TLC over all entry sequences and interleavings; entry sequences from the model's initial states concretised and run through the real syncRDBFile/restoreRDBFile against a model Redis whose command processing is scheduled (random / starve-one-connection), with the per-connection command log and final keyspace validated by TLC (FsTrace.tla)",
+        text="TLC proves right content, exactly-once, all-processed, failure-reported and termination for every interleaving of 2-3 workers over every sequence of <= 3-4 entries (plain, filtered, failing, two-chunk hash; with and without target.db); the real worker pools are bound by trace validation: every command's database, one writer and at most one successful RESTORE per key, every unfiltered key equal to the source value (independent decoder), failures reported, Parallel 1..8 under adversarial scheduling of the target.",
+        note="Entry-to-worker assignment is the Go runtime's; the scheduler orders only the target side. One open finding (chunk/rewrite race) is listed in known_findings.json."),
 }
 
 NOT_YET = "check not built yet in this session (work in progress; see DESIGN.md section 7 for the order)"
